@@ -107,6 +107,8 @@ def enum_pairs(tier):
                 a = hg.same_geometry_layout(base, *la)
                 b = hg.same_geometry_layout(base, *lb)
                 yield {"a": a, "b": b, "masked": "none", "chain": []}
+                if len(lens) == 2:
+                    yield {"a": a, "b": b, "masked": "none", "chain": [], "static": True}
         # ESRI against every layout of the equivalent uniform grid (cells, 2-D) in both directions
         nc, nr = max(1, tpl[0] - 1), max(1, tpl[1] - 1)
         for eorder in "CF":
@@ -170,10 +172,14 @@ def check_pair(case, ctx):
     if mk == "fixed" and (ma.all() or not ma.any()):
         mk = "none"
     out_mask = ma if mk == "fixed" else fm.Mask.FLEX
+    static = bool(case.get("static")) and not case["chain"]
+    if static:
+        ctx.event("static-link")
     link = hs.Link(
         fm.Info(time=hs.T0, grid=ga, units="m", mask=out_mask),
         [fm.Info(time=hs.T0, grid=gb, units="m")],
         chain=case["chain"],
+        static=static,
     )
     try:
         link.connect()
@@ -184,9 +190,13 @@ def check_pair(case, ctx):
         payload = xa.copy()
     else:
         payload = np.ma.array(xa.copy(), mask=ma)
-    link.out.push_data(payload, hs.T0)
+    link.out.push_data(payload, None if static else hs.T0)
     try:
         r = link.inputs[0].pull_data(hs.T0)
+        if static:
+            # a static input serves its cached value: every further pull must deliver the same located values
+            for _ in range(2):
+                r = link.inputs[0].pull_data(hs.T0)
     except (fm.FinamDataError, ValueError) as e:
         ctx.violation("link-pull-error", f"pull through compatible layouts failed: {type(e).__name__}: {e}")
         return
@@ -222,7 +232,8 @@ def pair_case(draw):
         ua = hg.user_axes(b)
         b = {"cls": "rect", "axes": [x.tolist() for x in ua], "order": b["order"], "rev": b["rev"], "loc": b["loc"]}
     chain = draw(st.sampled_from([[], [], [["scale", 1.0]], [["cb"]], [["cb"], ["scale", 1.0]]]))
-    return {"a": a, "b": b, "masked": draw(st.sampled_from(["none", "fixed", "flex"])), "chain": chain, "dim": dim}
+    return {"a": a, "b": b, "masked": draw(st.sampled_from(["none", "fixed", "flex"])), "chain": chain, "dim": dim,
+            "static": draw(st.integers(0, 3)) == 0}
 
 
 def _locset(cfg):
